@@ -31,6 +31,10 @@ pub struct Case1 {
     pub data: Vec<f64>,
     pub dd: DDim,
     pub strat: StratSel,
+    /// memory layout of the data array handed to the builder
+    pub lay: crate::layout::Lay,
+    /// memory layout of the explicit x axis
+    pub xlay: crate::layout::Lay,
 }
 
 pub struct Opts1 {
@@ -64,10 +68,12 @@ impl Case1 {
             let sc = scale_exp::<T>(src);
             let data = values::<T>(src, n * lanes, vc, sc);
             let dd = if src.chance(1, 5) { DDim::Dyn } else { DDim::of_rank(1 + trailing.len()) };
-            Case1 { n, axis_class, x, trailing, lanes, data, dd, strat: StratSel::Linear }
+            let lay = crate::layout::pick_lay(src);
+            let xlay = crate::layout::pick_lay(src);
+            Case1 { n, axis_class, x, trailing, lanes, data, dd, strat: StratSel::Linear, lay, xlay }
         } else {
             let c = SplineCase::gen::<T>(src, &o.spline);
-            Case1 { n: c.n, axis_class: c.axis_class, x: c.x, trailing: c.trailing, lanes: c.lanes, data: c.data, dd: c.dd, strat: StratSel::Spline(c.bc) }
+            Case1 { n: c.n, axis_class: c.axis_class, x: c.x, trailing: c.trailing, lanes: c.lanes, data: c.data, dd: c.dd, strat: StratSel::Spline(c.bc), lay: c.lay, xlay: c.xlay }
         }
     }
     pub fn shape(&self) -> Vec<usize> {
@@ -82,8 +88,8 @@ impl Case1 {
         }
     }
     pub fn build<T: Flt>(&self, extrapolate: bool) -> Result<Box<dyn I1<T>>, Fail> {
-        let xo = if self.axis_class == AxisClass::Index { None } else { Some(arr_1::<T>(&self.x)) };
-        match build1::<T>(xo, arr_d::<T>(&self.shape(), &self.data), self.dd, &self.strat1::<T>(extrapolate)) {
+        let xo = if self.axis_class == AxisClass::Index { None } else { Some(crate::layout::realise1(arr_1::<T>(&self.x), self.xlay, T::of(-9.0e9))) };
+        match build1::<T>(xo, crate::layout::realise(arr_d::<T>(&self.shape(), &self.data), self.lay, T::of(-3.5e5)), self.dd, &self.strat1::<T>(extrapolate)) {
             Some(Ok(i)) => Ok(i),
             Some(Err(e)) => Err(Fail::new("build-failed", format!("valid input rejected: {e}"))),
             None => Err(Fail::new("oracle-bug", "case not expressible in its dimension type")),
@@ -97,6 +103,7 @@ impl Case1 {
         obs.class(format!("axis:{}", self.axis_class.name()));
         obs.class(format!("ddim:{}", self.dd.name()));
         obs.class(format!("trailing_axes:{}", self.trailing.len()));
+        obs.class(format!("datalayout:{}", self.lay.0.name()));
     }
     pub fn describe<T: Flt>(&self) -> Value {
         json!({"T": T::NAME, "strategy": self.strat.name(), "n": self.n, "axis_class": self.axis_class.name(),
